@@ -7,12 +7,18 @@
   iterate is `> t1` (so `l` is exactly "start at t0 and repeatedly apply the bump while staying within [t0, t1]");
   `IsRangeDown` is the mirror image.  The generic theorems are stated for an abstract `step` that moves strictly
   forward (backward); they are instantiated — as theorems — for integer, timedelta, day/week/hour/minute/second and
-  business-day bumps and their compounds.  For month-based units (m, q, y) the hypothesis "the bump moves strictly
-  forward" is *not* proved of the Gregorian model (Civil.lean); those instances are only sampled by the
-  correspondence check.
+  business-day bumps, and — since the Gregorian arithmetic of Civil.lean is proved (CivilLemmas.lean: round trips for
+  every day number, months contiguous; CivilGreg.lean: equal to CPython's algorithms `Pyg.Greg`) — also for month,
+  quarter and year bumps and every compound of same-sign parts (`month_step_strict`, `single_forward_month`,
+  `single_backward_month`, `compound_forward_all`, `compound_backward_all`): no sampled hypothesis is left.
+  The step the ranges are specified with is the C09 model of `dt_bump` (`Pyg.Bump`): `dtbump_is_c09`,
+  `single_eq_iter_dtbump`, `compound_c09`.
 -/
 import PygModel.DRange
 import PygProofs.Lemmas.DRangeLemmas
+import PygProofs.Lemmas.DRangeMonth
+import PygProofs.Lemmas.DRangeBump
+import PygProofs.Props.C09
 
 namespace Pyg.Props.C10
 open Pyg Pyg.DRange
@@ -54,6 +60,19 @@ theorem loop_away (step : Int → Int) (t0 t1 : Int)
   · have a : ¬ t1 > t0 := by omega
     have b : step t0 ≥ t0 := h2
     simp [loopBranch, a, h1, b]
+
+/-- the same for the checked `dt_bump` loops -/
+theorem loopC_away (step : Int → Int) (t0 t1 : Int)
+    (h : (t0 < t1 ∧ step t0 ≤ t0) ∨ (t1 < t0 ∧ t0 ≤ step t0)) : loopBranchC step t0 t1 = .error .value := by
+  unfold loopBranchC
+  rcases h with ⟨h1, h2⟩ | ⟨h1, h2⟩
+  · have a : t1 > t0 := h1
+    have b : t0 ≤ t1 := by omega
+    rw [if_pos a]; unfold iterUpC; rw [if_pos b, if_pos h2]
+  · have a : ¬ t1 > t0 := by omega
+    have b : t0 ≥ t1 := by omega
+    have c : step t0 ≥ t0 := h2
+    rw [if_neg a, if_pos h1]; unfold iterDownC; rw [if_pos b, if_pos c]
 
 /-! ### timedelta bumps (incl. intraday) -/
 
@@ -150,6 +169,7 @@ theorem int_td_str_agree (t0 t1 n : Int) (hn : n ≠ 0) (hal : (t1 - t0) % DAY =
     · have hn' : ¬ n > 0 := by omega
       have hb : ¬ (Per.d = Per.b) := by decide
       simp only [hb, false_or, hn', if_false, hstep]
+      exact (loopBranchC_eq _ (Or.inr fun t => by show t + DAY * n < t; unfold DAY; omega) t0 t1).symm
 
 /-- whole days apart, an integer bump of the wrong sign raises `ValueError` -/
 theorem int_away (t0 t1 n : Int) (hal : (t1 - t0) % DAY = 0)
@@ -168,6 +188,61 @@ theorem none_default (t0 t1 : Int) :
     drange t0 t1 .none = drange t0 t1 (.int (if t0 < t1 then 1 else -1)) := by
   simp [drange]
 
+/-- integer bumps as one statement: `n > 0`, endpoints a whole number of days apart: the list is exactly
+`t0, t0 + n days, t0 + 2n days, …` while `≤ t1` -/
+theorem int_forward (t0 t1 n : Int) (hn : 0 < n) (h : t0 < t1) (hal : (t1 - t0) % DAY = 0) :
+    ∃ l, drange t0 t1 (.int n) = .ok l ∧ IsRangeUp (· + DAY * n) t0 t1 l ∧ l.head? = some t0 ∧
+      l.Pairwise (· < ·) ∧ (∀ x ∈ l, t0 ≤ x ∧ x ≤ t1) ∧ ∀ i, i < l.length → l[i]? = some (t0 + DAY * n * i) := by
+  obtain ⟨l, h1, h2, h3, h4, h5⟩ := loop_forward (· + DAY * n) (fun t => by unfold DAY; omega) t0 t1 h
+  refine ⟨l, by rw [int_eq_iterate t0 t1 n (by omega) (by omega) hal]; exact h1, h2, h3, h4, h5, fun i hi => ?_⟩
+  rw [(h2.1 i hi).1, iter_add]
+
+theorem int_backward (t0 t1 n : Int) (hn : n < 0) (h : t1 < t0) (hal : (t1 - t0) % DAY = 0) :
+    ∃ l, drange t0 t1 (.int n) = .ok l ∧ IsRangeDown (· + DAY * n) t0 t1 l ∧ l.head? = some t0 ∧
+      l.Pairwise (· > ·) ∧ (∀ x ∈ l, t1 ≤ x ∧ x ≤ t0) ∧ ∀ i, i < l.length → l[i]? = some (t0 + DAY * n * i) := by
+  obtain ⟨l, h1, h2, h3, h4, h5⟩ := loop_backward (· + DAY * n) (fun t => by unfold DAY; omega) t0 t1 h
+  refine ⟨l, by rw [int_eq_iterate t0 t1 n (by omega) (by omega) hal]; exact h1, h2, h3, h4, h5, fun i hi => ?_⟩
+  rw [(h2.1 i hi).1, iter_add]
+
+/-- no bump given, as a specification: one day per step from `t0` towards `t1`, whichever side `t1` is on -/
+theorem none_is_daily (t0 t1 : Int) (hne : t0 ≠ t1) (hal : (t1 - t0) % DAY = 0) :
+    ∃ l, drange t0 t1 .none = .ok l ∧ l.head? = some t0 ∧
+      (∀ i, i < l.length → l[i]? = some (if t0 < t1 then t0 + DAY * i else t0 - DAY * i)) ∧
+      (∀ x ∈ l, min t0 t1 ≤ x ∧ x ≤ max t0 t1) ∧ (l.length : Int) = (max t0 t1 - min t0 t1) / DAY + 1 := by
+  rw [none_default]
+  by_cases hlt : t0 < t1
+  · simp only [hlt, if_true]
+    obtain ⟨l, h1, h2, h3, _, h5, h6⟩ := int_forward t0 t1 1 (by omega) hlt hal
+    refine ⟨l, h1, h3, fun i hi => by rw [h6 i hi, Int.mul_one], fun x hx => by have := h5 x hx; omega, ?_⟩
+    have hlen := h2.2
+    rw [iter_add] at hlen
+    have hpos : 0 < l.length := by
+      cases l with
+      | nil => simp at h3
+      | cons _ _ => simp
+    have hlast := (h2.1 (l.length - 1) (by omega)).2
+    rw [iter_add] at hlast
+    have e : ((l.length - 1 : Nat) : Int) = (l.length : Int) - 1 := by omega
+    rw [e] at hlast
+    rw [show max t0 t1 = t1 by omega, show min t0 t1 = t0 by omega]
+    unfold DAY at *; omega
+  · have hgt : t1 < t0 := by omega
+    simp only [hlt, if_false]
+    obtain ⟨l, h1, h2, h3, _, h5, h6⟩ := int_backward t0 t1 (-1) (by omega) hgt hal
+    refine ⟨l, h1, h3, fun i hi => by rw [h6 i hi]; exact congrArg some (by unfold DAY; omega), fun x hx => by have := h5 x hx; omega, ?_⟩
+    have hlen := h2.2
+    rw [iter_add] at hlen
+    have hpos : 0 < l.length := by
+      cases l with
+      | nil => simp at h3
+      | cons _ _ => simp
+    have hlast := (h2.1 (l.length - 1) (by omega)).2
+    rw [iter_add] at hlast
+    have e : ((l.length - 1 : Nat) : Int) = (l.length : Int) - 1 := by omega
+    rw [e] at hlast
+    rw [show max t0 t1 = t0 by omega, show min t0 t1 = t1 by omega]
+    unfold DAY at *; omega
+
 /-! ### period strings -/
 
 /-- compound period strings (two or more parts) are iterated with `dt_bump`; stated for any bump that moves
@@ -179,7 +254,8 @@ theorem compound_forward (p q : Int × Per) (rest : List (Int × Per)) (t0 t1 : 
   obtain ⟨l, h1, h2⟩ := loop_forward _ hinc t0 t1 h
   refine ⟨l, ?_, h2⟩
   have : t0 ≠ t1 := by omega
-  simp [drange, this, h1]
+  rw [← h1, ← loopBranchC_eq _ (Or.inl hinc)]
+  simp [drange, this]
 
 theorem compound_backward (p q : Int × Per) (rest : List (Int × Per)) (t0 t1 : Int) (h : t1 < t0)
     (hdec : ∀ t, dtBump (p :: q :: rest) t < t) :
@@ -188,7 +264,8 @@ theorem compound_backward (p q : Int × Per) (rest : List (Int × Per)) (t0 t1 :
   obtain ⟨l, h1, h2⟩ := loop_backward _ hdec t0 t1 h
   refine ⟨l, ?_, h2⟩
   have : t0 ≠ t1 := by omega
-  simp [drange, this, h1]
+  rw [← h1, ← loopBranchC_eq _ (Or.inr hdec)]
+  simp [drange, this]
 
 /-- the hypothesis of `compound_forward` is a theorem for parts made of d, w, h, n, s, b with positive counts
 (and `dtBump_dec` for negative counts) -/
@@ -224,13 +301,98 @@ theorem single_backward (n : Int) (u : Per) (hu : u ≠ .b) (hn : n < 0) (t0 t1 
   refine ⟨l, ?_, h2⟩
   have hne : t0 ≠ t1 := by omega
   have hn' : ¬ n > 0 := by omega
-  simp only [drange, hne, if_false, hu, false_or, hn', h1]
+  simp only [drange, hne, if_false, hu, false_or, hn', loopBranchC_eq _ (Or.inr hdec), h1]
 
-/-- single period strings give the list obtained by iterating `dt_bump`: for units of fixed length always, for
-month-based units from midnight (the rrule step keeps the time of day, `dt_bump` drops it) -/
-theorem single_eq_iter_dtbump (n : Int) (u : Per) (hu : u ≠ .b) (hn : 0 < n) (t0 t1 : Int) (h : t0 < t1)
-    (hmid : u.fixed = false → t0 % DAY = 0) (hfwd : t0 < dtBump [(n, u)] t0) :
+/-! ### month, quarter, year bumps: strict monotonicity is a theorem of the Gregorian arithmetic -/
+
+/-- **the month step is strictly monotone**: `k > 0` months later is strictly later (by more than 27 days), `k < 0`
+months strictly earlier — for EVERY instant and every day of month; quarters are 3 and years 12 months -/
+theorem month_step_strict (t k : Int) :
+    (0 < k → t < bump1 t k .m ∧ t < bump1 t k .q ∧ t < bump1 t k .y) ∧
+    (k < 0 → bump1 t k .m < t ∧ bump1 t k .q < t ∧ bump1 t k .y < t) :=
+  ⟨fun h => ⟨bump1_inc_all t k .m (by omega), bump1_inc_all t k .q (by omega), bump1_inc_all t k .y (by omega)⟩,
+   fun h => ⟨bump1_dec_all t k .m (by omega), bump1_dec_all t k .q (by omega), bump1_dec_all t k .y (by omega)⟩⟩
+
+/-- every unit, every instant: a positive count moves strictly forward, a negative one strictly backward
+(generalises `fixed_parts_move_forward/backward` to m, q, y) -/
+theorem all_parts_move_forward (parts : List (Int × Per)) (hne : parts ≠ []) (hp : ∀ p ∈ parts, 1 ≤ p.1) :
+    ∀ t, t < dtBump parts t := fun t => dtBump_inc_all parts t hne hp
+
+theorem all_parts_move_backward (parts : List (Int × Per)) (hne : parts ≠ []) (hp : ∀ p ∈ parts, p.1 ≤ -1) :
+    ∀ t, dtBump parts t < t := fun t => dtBump_dec_all parts t hne hp
+
+/-- a single period with a positive count, ANY unit but `b` — in particular months, quarters, years — without a
+monotonicity hypothesis: the list is `t0, step t0, step² t0, …` while `≤ t1`, strictly increasing, inside `[t0,t1]`.
+(The model's rrule step is the real rrule only from a day of month ≤ 28 — "a day of month that exists in every
+month"; the theorem about the model needs no such restriction.) -/
+theorem single_forward_all (n : Int) (u : Per) (hu : u ≠ .b) (hn : 0 < n) (t0 t1 : Int) (h : t0 < t1) :
+    ∃ l, drange t0 t1 (.period [(n, u)]) = .ok l ∧ IsRangeUp (rruleStep n u) t0 t1 l ∧ l.head? = some t0 ∧
+      l.Pairwise (· < ·) ∧ ∀ x ∈ l, t0 ≤ x ∧ x ≤ t1 :=
+  single_forward n u hu hn t0 t1 h (rruleStep_inc n u (by omega))
+
+/-- months / quarters / years forward; from a day of month ≤ 28 the `i`-th element is `t0` plus `i·n` units exactly
+(the day of month and the time of day never drift) -/
+theorem single_forward_month (n : Int) (u : Per) (hu : u.fixed = false) (hn : 0 < n) (t0 t1 : Int) (h : t0 < t1) :
+    ∃ l, drange t0 t1 (.period [(n, u)]) = .ok l ∧ IsRangeUp (rruleStep n u) t0 t1 l ∧ l.head? = some t0 ∧
+      l.Pairwise (· < ·) ∧ (∀ x ∈ l, t0 ≤ x ∧ x ≤ t1) ∧
+      (t0 % DAY = 0 → Civil.day (dayOf t0) ≤ 28 → ∀ i, i < l.length → l[i]? = some (bump1 t0 (i * n) u)) := by
+  have hb : u ≠ .b := by intro e; subst e; simp [Per.fixed] at hu
+  obtain ⟨l, h1, h2, h3, h4, h5⟩ := single_forward_all n u hb hn t0 t1 h
+  refine ⟨l, h1, h2, h3, h4, h5, fun hm hd i hi => ?_⟩
+  rw [(h2.1 i hi).1, ← iter_bump1_month n u hu i t0 hm hd]
+  congr 1
+  exact iter_congr_inv _ _ (fun t => t % DAY = 0) (fun t ht => by
+    refine ⟨?_, ?_⟩
+    · cases u <;> simp [Per.fixed] at hu <;> simp [rruleStep, ht]
+    · cases u <;> simp [Per.fixed] at hu <;> simp [bump1, monthBump, yearBump, Int.mul_emod_left]) i t0 hm
+
+/-- months / quarters / years backward (the repaired branch, F3), without a monotonicity hypothesis -/
+theorem single_backward_all (n : Int) (u : Per) (hu : u ≠ .b) (hn : n < 0) (t0 t1 : Int) (h : t1 < t0) :
+    ∃ l, drange t0 t1 (.period [(n, u)]) = .ok l ∧ IsRangeDown (dtBump [(n, u)]) t0 t1 l ∧ l.head? = some t0 ∧
+      l.Pairwise (· > ·) ∧ ∀ x ∈ l, t1 ≤ x ∧ x ≤ t0 :=
+  single_backward n u hu hn t0 t1 h (all_parts_move_backward [(n, u)] (by simp) (fun p hp => by
+    simp at hp; subst hp; show n ≤ -1; omega))
+
+theorem single_backward_month (n : Int) (u : Per) (hu : u.fixed = false) (hn : n < 0) (t0 t1 : Int) (h : t1 < t0) :
+    ∃ l, drange t0 t1 (.period [(n, u)]) = .ok l ∧ IsRangeDown (dtBump [(n, u)]) t0 t1 l ∧ l.head? = some t0 ∧
+      l.Pairwise (· > ·) ∧ (∀ x ∈ l, t1 ≤ x ∧ x ≤ t0) ∧
+      (t0 % DAY = 0 → Civil.day (dayOf t0) ≤ 28 → ∀ i, i < l.length → l[i]? = some (bump1 t0 (i * n) u)) := by
+  have hb : u ≠ .b := by intro e; subst e; simp [Per.fixed] at hu
+  obtain ⟨l, h1, h2, h3, h4, h5⟩ := single_backward_all n u hb hn t0 t1 h
+  refine ⟨l, h1, h2, h3, h4, h5, fun hm hd i hi => ?_⟩
+  rw [(h2.1 i hi).1, ← iter_bump1_month n u hu i t0 hm hd]
+  rfl
+
+/-- compound periods whose parts all have positive counts, any units (m, q, y, b included): no hypothesis -/
+theorem compound_forward_all (p q : Int × Per) (rest : List (Int × Per)) (t0 t1 : Int) (h : t0 < t1)
+    (hp : ∀ x ∈ p :: q :: rest, 1 ≤ x.1) :
+    ∃ l, drange t0 t1 (.period (p :: q :: rest)) = .ok l ∧ IsRangeUp (dtBump (p :: q :: rest)) t0 t1 l ∧
+      l.head? = some t0 ∧ l.Pairwise (· < ·) ∧ ∀ x ∈ l, t0 ≤ x ∧ x ≤ t1 :=
+  compound_forward p q rest t0 t1 h (all_parts_move_forward _ (by simp) hp)
+
+theorem compound_backward_all (p q : Int × Per) (rest : List (Int × Per)) (t0 t1 : Int) (h : t1 < t0)
+    (hp : ∀ x ∈ p :: q :: rest, x.1 ≤ -1) :
+    ∃ l, drange t0 t1 (.period (p :: q :: rest)) = .ok l ∧ IsRangeDown (dtBump (p :: q :: rest)) t0 t1 l ∧
+      l.head? = some t0 ∧ l.Pairwise (· > ·) ∧ ∀ x ∈ l, t1 ≤ x ∧ x ≤ t0 :=
+  compound_backward p q rest t0 t1 h (all_parts_move_backward _ (by simp) hp)
+
+/-- a negative count of ANY unit but `b` with `t0 < t1` raises `ValueError` (extends `single_away_neg` to m, q, y) -/
+theorem single_away_neg_all (n : Int) (u : Per) (hu : u ≠ .b) (hn : n < 0) (t0 t1 : Int) (h : t0 < t1) :
+    drange t0 t1 (.period [(n, u)]) = .error .value := by
+  have hne : t0 ≠ t1 := by omega
+  have hn' : ¬ n > 0 := by omega
+  have hdec := all_parts_move_backward [(n, u)] (by simp) (fun p hp => by simp at hp; subst hp; show n ≤ -1; omega) t0
+  have := loopC_away (dtBump [(n, u)]) t0 t1 (Or.inl ⟨h, by omega⟩)
+  simp only [drange, hne, if_false, hu, false_or, hn', this]
+
+/-- single period strings (the rrule branch) give the list obtained by iterating the period step: for units of fixed
+length always, for month-based units from midnight (the rrule step keeps the time of day, `dt_bump` drops it).
+No monotonicity hypothesis. -/
+theorem single_eq_iter_step (n : Int) (u : Per) (hu : u ≠ .b) (hn : 0 < n) (t0 t1 : Int) (h : t0 < t1)
+    (hmid : u.fixed = false → t0 % DAY = 0) :
     drange t0 t1 (.period [(n, u)]) = loopBranch (dtBump [(n, u)]) t0 t1 := by
+  have hfwd : t0 < dtBump [(n, u)] t0 :=
+    all_parts_move_forward [(n, u)] (by simp) (fun p hp => by simp at hp; subst hp; show 1 ≤ n; omega) t0
   have hne : t0 ≠ t1 := by omega
   have hn' : n > 0 := hn
   have hd := tdDays_nonneg (t1 - t0) (by omega)
@@ -257,6 +419,185 @@ theorem single_eq_iter_dtbump (n : Int) (u : Per) (hu : u ≠ .b) (hn : 0 < n) (
     refine ⟨e, ?_⟩
     cases u <;> simp [Per.fixed] at hf' <;> simp [bump1, monthBump, yearBump, Int.mul_emod_left]
 
+/-! ### compound tenors of ANY signs and units: never an empty or unbounded list (repair F15) -/
+
+/-- the checked `dt_bump` loop, for an arbitrary step and `t0 < t1`: EITHER the exact range — `l[i] = step^i t0`, all
+inside `[t0,t1]`, the next iterate beyond `t1`, starts at `t0`, strictly increasing — OR `ValueError`, and then some
+iterate reached inside the range failed to move strictly forward.  No hypothesis on the step. -/
+theorem loopC_forward (step : Int → Int) (t0 t1 : Int) (h : t0 < t1) :
+    (∃ l, loopBranchC step t0 t1 = .ok l ∧ IsRangeUp step t0 t1 l ∧ l.head? = some t0 ∧ l.Pairwise (· < ·) ∧
+      ∀ x ∈ l, t0 ≤ x ∧ x ≤ t1) ∨
+    (loopBranchC step t0 t1 = .error .value ∧
+      ∃ i, (∀ j, j ≤ i → iter step j t0 ≤ t1) ∧ step (iter step i t0) ≤ iter step i t0) := by
+  have h1 : t1 > t0 := h
+  unfold loopBranchC
+  rw [if_pos h1]
+  rcases iterUpC_spec step t1 ((t1 - t0).toNat + 1) t0 (by omega) with ⟨l, e, hr, hp, hm⟩ | hbad
+  · exact Or.inl ⟨l, e, hr, hr.head (by omega), hp, hm⟩
+  · exact Or.inr hbad
+
+theorem loopC_backward (step : Int → Int) (t0 t1 : Int) (h : t1 < t0) :
+    (∃ l, loopBranchC step t0 t1 = .ok l ∧ IsRangeDown step t0 t1 l ∧ l.head? = some t0 ∧ l.Pairwise (· > ·) ∧
+      ∀ x ∈ l, t1 ≤ x ∧ x ≤ t0) ∨
+    (loopBranchC step t0 t1 = .error .value ∧
+      ∃ i, (∀ j, j ≤ i → t1 ≤ iter step j t0) ∧ iter step i t0 ≤ step (iter step i t0)) := by
+  have h1 : ¬ t1 > t0 := by omega
+  unfold loopBranchC
+  rw [if_neg h1, if_pos h]
+  rcases iterDownC_spec step t1 ((t0 - t1).toNat + 1) t0 (by omega) with ⟨l, e, hr, hp, hm⟩ | hbad
+  · exact Or.inl ⟨l, e, hr, hr.head (by omega), hp, hm⟩
+  · exact Or.inr hbad
+
+/-- every compound period string — mixed signs, any units — takes that loop -/
+theorem compound_is_loopC (p q : Int × Per) (rest : List (Int × Per)) (t0 t1 : Int) (h : t0 ≠ t1) :
+    drange t0 t1 (.period (p :: q :: rest)) = loopBranchC (dtBump (p :: q :: rest)) t0 t1 := by
+  simp [drange, h]
+
+/-- so a compound tenor gives the exact strictly increasing range or raises `ValueError` — it never returns an empty
+list and never runs on for ever -/
+theorem compound_never_unbounded (p q : Int × Per) (rest : List (Int × Per)) (t0 t1 : Int) (h : t0 < t1) :
+    (∃ l, drange t0 t1 (.period (p :: q :: rest)) = .ok l ∧ IsRangeUp (dtBump (p :: q :: rest)) t0 t1 l ∧
+      l.head? = some t0 ∧ l.Pairwise (· < ·) ∧ ∀ x ∈ l, t0 ≤ x ∧ x ≤ t1) ∨
+    drange t0 t1 (.period (p :: q :: rest)) = .error .value := by
+  rw [compound_is_loopC p q rest t0 t1 (by omega)]
+  rcases loopC_forward (dtBump (p :: q :: rest)) t0 t1 h with hl | ⟨e, _⟩
+  · exact Or.inl hl
+  · exact Or.inr e
+
+/-- the witness of F15: `'1m-30d'` from 2001-01-28 (a day of month every month has) towards 2001-06-01 -/
+def f15Step : Int → Int := dtBump [(1, .m), (-30, .d)]
+def f15T0 : Int := (Civil.ord 2001 1 28 - 1) * DAY
+def f15T1 : Int := (Civil.ord 2001 6 1 - 1) * DAY
+
+/-- **the monotonicity hypothesis is false for a tenor inside the quantifier**: `'1m-30d'` passes the direction test
+at `t0` (01-28 → 01-29), walks 01-29, 01-30, 01-31, 02-01 and then steps BACK to 01-30: the orbit is periodic and
+never passes `t1`, so the `while t <= t1` loop of the pinned code, which tests the direction at `t0` only, never
+exits (no result, unbounded list).  The repaired loop raises `ValueError`. -/
+theorem mixed_sign_not_monotone :
+    f15T0 < f15Step f15T0 ∧ f15Step (iter f15Step 4 f15T0) < iter f15Step 4 f15T0 ∧
+    iter f15Step 5 f15T0 = iter f15Step 2 f15T0 ∧ (∀ i, iter f15Step i f15T0 ≤ f15T1) ∧
+    drange f15T0 f15T1 (.period [(1, .m), (-30, .d)]) = .error .value := by
+  have e1 : f15Step f15T0 = f15T0 + DAY := by decide +kernel
+  have e2 : f15Step (f15T0 + DAY) = f15T0 + 2 * DAY := by decide +kernel
+  have e3 : f15Step (f15T0 + 2 * DAY) = f15T0 + 3 * DAY := by decide +kernel
+  have e4 : f15Step (f15T0 + 3 * DAY) = f15T0 + 4 * DAY := by decide +kernel
+  have e5 : f15Step (f15T0 + 4 * DAY) = f15T0 + 2 * DAY := by decide +kernel
+  have hD : f15T0 + 4 * DAY ≤ f15T1 := by decide +kernel
+  have i1 : iter f15Step 1 f15T0 = f15T0 + DAY := e1
+  have i2 : iter f15Step 2 f15T0 = f15T0 + 2 * DAY := by rw [iter_succ_outer, i1, e2]
+  have i3 : iter f15Step 3 f15T0 = f15T0 + 3 * DAY := by rw [iter_succ_outer, i2, e3]
+  have i4 : iter f15Step 4 f15T0 = f15T0 + 4 * DAY := by rw [iter_succ_outer, i3, e4]
+  have i5 : iter f15Step 5 f15T0 = f15T0 + 2 * DAY := by rw [iter_succ_outer, i4, e5]
+  have orbit : ∀ i, iter f15Step i f15T0 = f15T0 ∨ iter f15Step i f15T0 = f15T0 + DAY ∨
+      iter f15Step i f15T0 = f15T0 + 2 * DAY ∨ iter f15Step i f15T0 = f15T0 + 3 * DAY ∨
+      iter f15Step i f15T0 = f15T0 + 4 * DAY := by
+    intro i
+    induction i with
+    | zero => exact Or.inl rfl
+    | succ i ih =>
+      rw [iter_succ_outer]
+      rcases ih with h | h | h | h | h <;> rw [h]
+      · exact Or.inr (Or.inl e1)
+      · exact Or.inr (Or.inr (Or.inl e2))
+      · exact Or.inr (Or.inr (Or.inr (Or.inl e3)))
+      · exact Or.inr (Or.inr (Or.inr (Or.inr e4)))
+      · exact Or.inr (Or.inr (Or.inl e5))
+  refine ⟨by rw [e1]; unfold DAY; omega, by rw [i4, e5]; unfold DAY; omega, by rw [i5, i2], fun i => ?_, by rfl⟩
+  have := orbit i
+  unfold DAY at *
+  omega
+
+/-! ### the step is the C09 model of `dt_bump` (`Pyg.Bump`, generated kernels + `Pyg.Greg`), not a local copy -/
+
+/-- `DRange.dtBump` refines the C09 model: for a tenor written as tokens `ks` (sign, digits, unit letter) standing
+for the parts, from any instant `t ≥ 0` (0001-01-01 or later), whenever `Bump.bumpCs` — the tokenizer loop of
+`dt_bump` — returns a value, that value is `dtBump parts t`; and for a single part it returns a value exactly when
+`dtBump` lands in the representable range `[0, MAXUS)` -/
+theorem dtbump_is_c09 (ks : List Bump.Tok) (wf : ∀ k ∈ ks, k.WF) (parts : List (Int × Per)) (hks : TokParts ks parts)
+    (t : Int) (ht : 0 ≤ t) :
+    (∀ t', Bump.bumpCs (ks.flatMap Bump.Tok.text) t = .ok t' → t' = dtBump parts t) ∧
+    (∀ k n u, ks = [k] → parts = [(n, u)] → 0 ≤ dtBump parts t → dtBump parts t < Bump.MAXUS →
+      Bump.bumpCs (ks.flatMap Bump.Tok.text) t = .ok (dtBump parts t)) := by
+  rw [Pyg.Props.C09.tenor_left_to_right ks wf t]
+  refine ⟨fun t' h => runToks_refines ks parts hks t t' ht h, ?_⟩
+  intro k n u hk hp h0 h1
+  subst hk; subst hp
+  simp only [TokParts, and_true] at hks
+  exact runToks_single_defined k n u hks t ht h0 h1
+
+/-- **single periods enumerate `t0, dt_bump(t0), dt_bump(dt_bump(t0)), …` with the C09 model's `dt_bump`**:
+for the token `k` = `<n><unit>` (n > 0, unit ≠ b) and `0 ≤ t0 < t1 < MAXUS` (both endpoints representable), month-based
+units from midnight: the list starts at `t0`, every element is the C09 `dt_bump` of its predecessor, all lie in
+`[t0, t1]`, and the C09 `dt_bump` of the last element — if it does not overflow — is beyond `t1` -/
+theorem single_eq_iter_dtbump (k : Bump.Tok) (wf : k.WF) (n : Int) (u : Per) (hk : k.value = n ∧ k.unit = u.letter)
+    (hu : u ≠ .b) (hn : 0 < n) (t0 t1 : Int) (h0 : 0 ≤ t0) (h : t0 < t1) (h1 : t1 < Bump.MAXUS)
+    (hmid : u.fixed = false → t0 % DAY = 0) :
+    ∃ l, drange t0 t1 (.period [(n, u)]) = .ok l ∧ l.head? = some t0 ∧
+      (∀ i x y, l[i]? = some x → l[i + 1]? = some y → Bump.bumpCs k.text x = .ok y) ∧
+      (∀ x, l.getLast? = some x → ∀ y, Bump.bumpCs k.text x = .ok y → t1 < y) ∧
+      (∀ x ∈ l, t0 ≤ x ∧ x ≤ t1) ∧ l.Pairwise (· < ·) := by
+  have hinc := all_parts_move_forward [(n, u)] (by simp) (fun p hp => by simp at hp; subst hp; show 1 ≤ n; omega)
+  obtain ⟨l, e1, e2, e3, e4, e5⟩ := loop_forward (dtBump [(n, u)]) hinc t0 t1 h
+  have htext : [k].flatMap Bump.Tok.text = k.text := by simp
+  have hc09 := fun t ht => dtbump_is_c09 [k] (fun x hx => by simp at hx; subst hx; exact wf) [(n, u)]
+    (by simp only [TokParts, and_true]; exact hk) t ht
+  simp only [htext] at hc09
+  refine ⟨l, by rw [single_eq_iter_step n u hu hn t0 t1 h hmid]; exact e1, e3, ?_, ?_, e5, e4⟩
+  · intro i x y hx hy
+    have hi : i + 1 < l.length := by
+      rcases Nat.lt_or_ge (i + 1) l.length with hlt | hge
+      · exact hlt
+      · rw [List.getElem?_eq_none hge] at hy; cases hy
+    have a := (e2.1 i (by omega)).1
+    have b := (e2.1 (i + 1) hi).1
+    rw [hx] at a; rw [hy] at b
+    cases a; cases b
+    have hy1 := (e2.1 (i + 1) hi).2
+    have hx0 := (e5 _ (List.mem_of_getElem? hx)).1
+    have hyy : iter (dtBump [(n, u)]) (i + 1) t0 = dtBump [(n, u)] (iter (dtBump [(n, u)]) i t0) :=
+      iter_succ_outer _ i t0
+    rw [hyy] at hy1 ⊢
+    have hlt := hinc (iter (dtBump [(n, u)]) i t0)
+    exact (hc09 _ (by omega)).2 k n u rfl rfl (by omega) (by omega)
+  · intro x hx y hy
+    have hlen : l ≠ [] := by intro e; subst e; simp at hx
+    have hpos : 0 < l.length := by cases l with | nil => exact absurd rfl hlen | cons _ _ => simp
+    have hlast : l[l.length - 1]? = some x := by rw [← List.getLast?_eq_getElem?]; exact hx
+    have a := (e2.1 (l.length - 1) (by omega)).1
+    rw [hlast] at a; cases a
+    have hx0 := (e5 _ (List.mem_of_getElem? hlast)).1
+    have := (hc09 _ (by omega)).1 y hy
+    rw [this, ← iter_succ_outer (dtBump [(n, u)]) (l.length - 1) t0]
+    have e : l.length - 1 + 1 = l.length := by omega
+    rw [e]; exact e2.2
+
+/-- compound tenors (any parts of one sign) against the C09 model: whenever the C09 `dt_bump` of an element of the
+list returns a value, that value is the next element — or, after the last element, lies beyond `t1` -/
+theorem compound_c09 (ks : List Bump.Tok) (wf : ∀ k ∈ ks, k.WF) (p q : Int × Per) (rest : List (Int × Per))
+    (hks : TokParts ks (p :: q :: rest)) (t0 t1 : Int) (h0 : 0 ≤ t0) (h : t0 < t1)
+    (hp : ∀ x ∈ p :: q :: rest, 1 ≤ x.1) :
+    ∃ l, drange t0 t1 (.period (p :: q :: rest)) = .ok l ∧ l.head? = some t0 ∧
+      (∀ i x y, l[i]? = some x → Bump.bumpCs (ks.flatMap Bump.Tok.text) x = .ok y →
+        (l[i + 1]? = some y ∨ (i + 1 = l.length ∧ t1 < y))) ∧
+      (∀ x ∈ l, t0 ≤ x ∧ x ≤ t1) ∧ l.Pairwise (· < ·) := by
+  obtain ⟨l, e1, e2, e3, e4, e5⟩ := compound_forward_all p q rest t0 t1 h hp
+  refine ⟨l, e1, e3, ?_, e5, e4⟩
+  intro i x y hx hy
+  have hi : i < l.length := by
+    rcases Nat.lt_or_ge i l.length with hlt | hge
+    · exact hlt
+    · rw [List.getElem?_eq_none hge] at hx; cases hx
+  have a := (e2.1 i hi).1
+  rw [hx] at a; cases a
+  have hx0 := (e5 _ (List.mem_of_getElem? hx)).1
+  have hy' := (dtbump_is_c09 ks wf _ hks _ (by omega)).1 y hy
+  rw [← iter_succ_outer (dtBump (p :: q :: rest)) i t0] at hy'
+  by_cases hl : i + 1 < l.length
+  · exact Or.inl (by rw [(e2.1 (i + 1) hl).1, hy'])
+  · refine Or.inr ⟨by omega, ?_⟩
+    have e : i + 1 = l.length := by omega
+    rw [hy', e]; exact e2.2
+
 /-- period strings pointing away from `t1`: a positive count with `t1 < t0` -/
 theorem single_away_pos (n : Int) (u : Per) (hn : 0 < n) (t0 t1 : Int) (h : t1 < t0) :
     drange t0 t1 (.period [(n, u)]) = .error .value := by
@@ -274,7 +615,7 @@ theorem single_away_neg (n : Int) (u : Per) (hu : u ≠ .b) (hf : u.fixed = true
   have hne : t0 ≠ t1 := by omega
   have hn' : ¬ n > 0 := by omega
   have hdec := dtBump_dec [(n, u)] t0 (by simp) (fun p hp => by simp at hp; subst hp; exact ⟨hf, by omega⟩)
-  have := loop_away (dtBump [(n, u)]) t0 t1 (Or.inl ⟨h, by omega⟩)
+  have := loopC_away (dtBump [(n, u)]) t0 t1 (Or.inl ⟨h, by omega⟩)
   simp only [drange, hne, if_false, hu, false_or, hn', this]
 
 /-! ### business-day bumps -/
@@ -357,6 +698,58 @@ theorem stride_getElem? {α} (k : Nat) (hk : 1 ≤ k) (l : List α) (i : Nat) : 
   have := go l 0 i
   simpa [stride] using this
 
+/-- `'kb'` against the specification of `'1b'`: with `l1` = every weekday of the daily grid from `t0` up to `t1` in
+increasing order (the `'1b'` list, characterised by its members), the `'kb'` list is `l1[0], l1[k], l1[2k], …` -/
+theorem kb_every_kth (k : Int) (hk : 1 ≤ k) (t0 t1 : Int) (h : t0 < t1) :
+    ∃ l1 lk, drange t0 t1 (.period [(1, .b)]) = .ok l1 ∧ drange t0 t1 (.period [(k, .b)]) = .ok lk ∧
+      l1.Pairwise (· < ·) ∧ (∀ x, x ∈ l1 ↔ t0 ≤ x ∧ x ≤ t1 ∧ (x - t0) % DAY = 0 ∧ wdT x < 5) ∧
+      ∀ i, lk[i]? = l1[k.natAbs * i]? := by
+  obtain ⟨l1, e1, hp, hm⟩ := b_is_weekday_list t0 t1 h
+  have e1' := kb_stride 1 (by omega) t0 t1 h
+  have ek := kb_stride k hk t0 t1 h
+  simp only [show ¬ (1 : Int).natAbs > 1 by decide, if_false] at e1'
+  rw [e1] at e1'
+  cases e1'
+  refine ⟨_, _, e1, ek, hp, hm, fun i => ?_⟩
+  by_cases hgt : k.natAbs > 1
+  · simp only [hgt, if_true]; exact stride_getElem? k.natAbs (by omega) _ i
+  · simp only [hgt, if_false]
+    have : k.natAbs = 1 := by omega
+    rw [this, Nat.one_mul]
+
+/-- `'-1b'` as a specification: exactly the weekdays of the daily grid (anchored at the lower endpoint `t1`, i.e. at
+`t0` as well when the endpoints are whole days apart) between the endpoints, in DEcreasing order -/
+theorem b_backward_list (t0 t1 : Int) (h : t1 < t0) :
+    ∃ l, drange t0 t1 (.period [(-1, .b)]) = .ok l ∧ l.Pairwise (· > ·) ∧
+      ∀ x, x ∈ l ↔ t1 ≤ x ∧ x ≤ t0 ∧ (x - t1) % DAY = 0 ∧ wdT x < 5 := by
+  have hinc1 : ∀ t : Int, t < t + DAY := by intro t; unfold DAY; omega
+  have e := kb_stride_backward (-1) (by omega) t0 t1 h
+  simp only [show ¬ (-1 : Int).natAbs > 1 by decide, if_false] at e
+  refine ⟨_, e, ?_, fun x => ?_⟩
+  · rw [List.pairwise_reverse]
+    exact (upTo_pairwise _ hinc1 t0 t1).filter _
+  · rw [List.mem_reverse, List.mem_filter, mem_daily]
+    simp only [decide_eq_true_eq]
+    omega
+
+/-- `'-kb'`: every k-th element of the `'-1b'` list -/
+theorem kb_every_kth_backward (k : Int) (hk : k ≤ -1) (t0 t1 : Int) (h : t1 < t0) :
+    ∃ l1 lk, drange t0 t1 (.period [(-1, .b)]) = .ok l1 ∧ drange t0 t1 (.period [(k, .b)]) = .ok lk ∧
+      l1.Pairwise (· > ·) ∧ (∀ x, x ∈ l1 ↔ t1 ≤ x ∧ x ≤ t0 ∧ (x - t1) % DAY = 0 ∧ wdT x < 5) ∧
+      ∀ i, lk[i]? = l1[k.natAbs * i]? := by
+  obtain ⟨l1, e1, hp, hm⟩ := b_backward_list t0 t1 h
+  have e1' := kb_stride_backward (-1) (by omega) t0 t1 h
+  have ek := kb_stride_backward k hk t0 t1 h
+  simp only [show ¬ (-1 : Int).natAbs > 1 by decide, if_false] at e1'
+  rw [e1] at e1'
+  cases e1'
+  refine ⟨_, _, e1, ek, hp, hm, fun i => ?_⟩
+  by_cases hgt : k.natAbs > 1
+  · simp only [hgt, if_true]; exact stride_getElem? k.natAbs (by omega) _ i
+  · simp only [hgt, if_false]
+    have : k.natAbs = 1 := by omega
+    rw [this, Nat.one_mul]
+
 /-- a business-day bump pointing away from `t1` raises `ValueError` -/
 theorem b_away (k : Int) (t0 t1 : Int) (hal : (t1 - t0) % DAY = 0)
     (h : (t0 < t1 ∧ k ≤ -1) ∨ (t1 < t0 ∧ 1 ≤ k)) : drange t0 t1 (.period [(k, .b)]) = .error .value := by
@@ -376,9 +769,19 @@ example : drange (63082281600000000 + 9 * DAY) 63082281600000000 (.period [(-3, 
     = .ok [63082281600000000 + 9 * DAY, 63082281600000000 + 6 * DAY, 63082281600000000 + 3 * DAY, 63082281600000000] := by rfl
 example : drange 63082281600000000 (63082281600000000 + 4 * DAY) (.period [(1, .b)])
     = .ok [63082281600000000 + 2 * DAY, 63082281600000000 + 3 * DAY, 63082281600000000 + 4 * DAY] := by rfl
-/-- the hypotheses of `int_td_str_agree`, `fixed_parts_move_forward` and `single_eq_iter_dtbump` are satisfiable -/
+/-- the hypotheses of `int_td_str_agree`, `fixed_parts_move_forward`, `single_eq_iter_step`, `single_eq_iter_dtbump`,
+`single_forward_month` and `compound_c09` are satisfiable -/
 example : (3 : Int) ≠ 0 ∧ ((63082281600000000 + 9 * DAY) - 63082281600000000) % DAY = 0 := by decide
 example : ∀ p ∈ [((1 : Int), Per.w), (2, Per.b), (12, Per.h)], p.2.fixed = true ∧ 1 ≤ p.1 := by decide
-example : (63082281600000000 : Int) % DAY = 0 ∧ 63082281600000000 < dtBump [(1, .m)] 63082281600000000 := by decide
+example : (63082281600000000 : Int) % DAY = 0 ∧ Civil.day (dayOf 63082281600000000) ≤ 28 := by decide
+example : (⟨.none, ['3'], 'm'⟩ : Bump.Tok).WF ∧ (⟨.none, ['3'], 'm'⟩ : Bump.Tok).value = 3 ∧
+    (⟨.none, ['3'], 'm'⟩ : Bump.Tok).unit = Per.m.letter ∧ (0 : Int) ≤ 63082281600000000 ∧
+    (63082281600000000 : Int) + 400 * DAY < Bump.MAXUS := by decide
+example : TokParts [⟨.none, ['1'], 'm'⟩, ⟨.plus, ['2'], 'd'⟩] [(1, .m), (2, .d)] :=
+  ⟨⟨by decide, rfl⟩, ⟨by decide, rfl⟩, trivial⟩
+/-- months forward from 2000-01-01 (a Saturday): 01-01, 04-01, 07-01, 10-01 -/
+example : drange 63082281600000000 (63082281600000000 + 300 * DAY) (.period [(3, .m)])
+    = .ok [63082281600000000, 63082281600000000 + 91 * DAY, 63082281600000000 + 182 * DAY,
+      63082281600000000 + 274 * DAY] := by rfl
 
 end Pyg.Props.C10
